@@ -18,8 +18,7 @@ def _punct(rng, lit, name, named_defs):
 
 def gen(rng):
     named = {}
-    ci = rng.random() < 0.3                   # case-insensitive keywords
-    kwflag = 'i' if ci else ''
+    ci = rng.choice(['none', 'none', 'none', 'all', 'all', 'mixed'])      # case-insensitive keywords: none, all, or chosen per keyword
     stmts = rng.sample(KEYWORDS, rng.randint(2, len(KEYWORDS)))
     rules = []
     stmt_alts = []
@@ -31,7 +30,7 @@ def gen(rng):
     P = lambda lit, name: _punct(rng, lit, name, named)
     for kw in stmts:
         alias = (' -> %s_stmt' % kw) if rng.random() < 0.5 else ''
-        head = '"%s"%s' % (kw, kwflag)
+        head = '"%s"%s' % (kw, 'i' if ci == 'all' or (ci == 'mixed' and rng.random() < 0.5) else '')
         if kw == 'let':
             need_expr = True
             stmt_alts.append('%s NAME %s expr %s%s' % (head, P('=', 'EQUAL'), P(';', 'SEMI'), alias))
@@ -73,7 +72,7 @@ def gen(rng):
         lines.append('single: expr')
     lines += rules
     npr = rng.choice(['', '', '.1', '.2'])
-    lines.append('NAME%s: /[a-z]+%s/%s' % (npr, '[a-z0-9]*' if rng.random() < 0.3 else '', 'i' if rng.random() < 0.3 else ''))
+    lines.append('NAME%s: /[a-z]+%s/%s' % (npr, '[a-z0-9]*' if rng.random() < 0.3 else '', rng.choice(['', '', '', 'i', 'i', 's', 'm', 'sm', 'is'])))   # flags other than the keywords' own decide which keywords fold into NAME
     lines.append('NUM%s: /[0-9]+/' % rng.choice(['', '.3']))
     lines.append('STR: /"[^"\\n]*"/')
     if blob:
